@@ -125,3 +125,163 @@ Proof.
     rewrite E. replace (len + 9 + (119 - r)) with (0 + (q + 2) * 64) by lia.
     rewrite N.mod_add by lia. reflexivity.
 Qed.
+
+(* ---- completeness of the block decomposition (fuel sufficiency) ----
+   [blocks] cuts the words of the padded message with the fuel-driven [chunks].  The fuel
+   given (the number of words) is always enough: the blocks, put back together, are ALL
+   the words; the words, written back as bytes, are ALL of the padded message; and the
+   padded message starts with the message.  So no byte of the message is ever left out of
+   the blocks that [sha1_state] folds [compress] over. *)
+Definition byte (b : N) : Prop := b < 256.
+
+Lemma chunks_concat {A} n : (0 < n)%nat -> forall fuel (l : list A),
+  (length l <= fuel)%nat -> concat (chunks fuel n l) = l.
+Proof.
+  intros Hn. induction fuel as [|f IH]; intros l Hl.
+  - destruct l; [reflexivity | cbn in Hl; lia].
+  - cbn [chunks]. destruct l as [|x l']; [reflexivity|].
+    cbn [concat]. rewrite IH.
+    + apply firstn_skipn.
+    + rewrite skipn_length. cbn [length] in *. lia.
+Qed.
+
+Lemma chunks_full {A} n : (0 < n)%nat -> forall fuel k (l : list A),
+  (length l <= fuel)%nat -> length l = (k * n)%nat ->
+  Forall (fun b => length b = n) (chunks fuel n l).
+Proof.
+  intros Hn. induction fuel as [|f IH]; intros k l Hl Hk; [constructor|].
+  cbn [chunks]. destruct l as [|x l']; [constructor|].
+  destruct k as [|k]; [cbn in Hk; discriminate|].
+  constructor.
+  - rewrite firstn_length. lia.
+  - apply (IH k).
+    + rewrite skipn_length. cbn [length] in *. lia.
+    + rewrite skipn_length. lia.
+Qed.
+
+Lemma chunks_count {A} n : (0 < n)%nat -> forall fuel k (l : list A),
+  (length l <= fuel)%nat -> length l = (k * n)%nat -> length (chunks fuel n l) = k.
+Proof.
+  intros Hn. induction fuel as [|f IH]; intros k l Hl Hk.
+  - destruct l; [|cbn in Hl; lia]. cbn in Hk. destruct k; [reflexivity | lia].
+  - cbn [chunks]. destruct l as [|x l'].
+    + cbn in Hk. destruct k; [reflexivity | lia].
+    + destruct k as [|k]; [cbn in Hk; discriminate|]. cbn [length]. f_equal.
+      apply IH.
+      * rewrite skipn_length. cbn [length] in *. lia.
+      * rewrite skipn_length. lia.
+Qed.
+
+Lemma word_bytes_pack b0 b1 b2 b3 :
+  byte b0 -> byte b1 -> byte b2 -> byte b3 ->
+  word_bytes (b0 * 16777216 + b1 * 65536 + b2 * 256 + b3) = [b0; b1; b2; b3].
+Proof.
+  unfold byte, word_bytes. intros H0 H1 H2 H3.
+  set (w := b0 * 16777216 + b1 * 65536 + b2 * 256 + b3).
+  assert (E0 : w / 16777216 = b0).
+  { symmetry. apply (N.div_unique w 16777216 b0 (b1 * 65536 + b2 * 256 + b3)); unfold w; lia. }
+  assert (E1 : w / 65536 = b0 * 256 + b1).
+  { symmetry. apply (N.div_unique w 65536 (b0 * 256 + b1) (b2 * 256 + b3)); unfold w; lia. }
+  assert (E2 : w / 256 = b0 * 65536 + b1 * 256 + b2).
+  { symmetry. apply (N.div_unique w 256 (b0 * 65536 + b1 * 256 + b2) b3); unfold w; lia. }
+  rewrite E0, E1, E2.
+  assert (M1 : (b0 * 256 + b1) mod 256 = b1).
+  { symmetry. apply (N.mod_unique (b0 * 256 + b1) 256 b0 b1); lia. }
+  assert (M2 : (b0 * 65536 + b1 * 256 + b2) mod 256 = b2).
+  { symmetry. apply (N.mod_unique (b0 * 65536 + b1 * 256 + b2) 256 (b0 * 256 + b1) b2); lia. }
+  assert (M3 : w mod 256 = b3).
+  { symmetry. apply (N.mod_unique w 256 (b0 * 65536 + b1 * 256 + b2) b3); unfold w; lia. }
+  rewrite M1, M2, M3. reflexivity.
+Qed.
+
+(* the words, written back as bytes, are the whole string (length a multiple of 4) *)
+Lemma words_complete : forall k (l : str),
+  length l = (4 * k)%nat -> Forall byte l ->
+  flat_map word_bytes (words l) = l /\ length (words l) = k.
+Proof.
+  induction k as [|k IH]; intros l Hl Hb.
+  - destruct l; [split; reflexivity | cbn in Hl; lia].
+  - destruct l as [|b0 [|b1 [|b2 [|b3 r]]]]; cbn [length] in Hl; try lia.
+    inversion Hb as [|? ? H0 Hb1]; subst. inversion Hb1 as [|? ? H1 Hb2]; subst.
+    inversion Hb2 as [|? ? H2 Hb3]; subst. inversion Hb3 as [|? ? H3 Hr]; subst.
+    destruct (IH r ltac:(lia) Hr) as [E L].
+    cbn [words flat_map length]. rewrite word_bytes_pack by assumption. rewrite E, L.
+    split; reflexivity.
+Qed.
+
+Lemma zeros_byte k : Forall byte (zeros k).
+Proof. induction k; cbn; constructor; [unfold byte; lia | assumption]. Qed.
+
+Lemma be_bytes_byte k : forall x, Forall byte (be_bytes k x).
+Proof.
+  induction k as [|k IH]; intros x; cbn [be_bytes]; [constructor|].
+  apply Forall_app. split; [apply IH|]. constructor; [|constructor].
+  unfold byte. apply N.mod_upper_bound. lia.
+Qed.
+
+Lemma pad_byte m : Forall byte m -> Forall byte (pad m).
+Proof.
+  intros Hm. unfold pad. apply Forall_app. split; [exact Hm|].
+  cbn [app]. constructor; [unfold byte; lia|].
+  apply Forall_app. split; [apply zeros_byte | apply be_bytes_byte].
+Qed.
+
+(* the padded message starts with the message; what follows is 0x80, zeros, the bit length *)
+Lemma pad_prefix m :
+  pad m = m ++ 128 :: zeros (pad_zeros (N.of_nat (length m)))
+            ++ be_bytes 8 (bitlen64 (N.of_nat (length m))).
+Proof. reflexivity. Qed.
+
+Lemma pad_length_blocks m : exists k, length (pad m) = (64 * k)%nat.
+Proof.
+  pose proof (pad_length_mod64 m) as H.
+  exists (N.to_nat (N.of_nat (length (pad m)) / 64)).
+  pose proof (N.div_mod (N.of_nat (length (pad m))) 64 ltac:(lia)) as D.
+  rewrite H in D. lia.
+Qed.
+
+(* the blocks are whole (16 words each), as many as the padded length says, and together
+   they are all the words: the fuel of [chunks] never runs out early *)
+Lemma blocks_complete p k :
+  length p = (64 * k)%nat -> Forall byte p ->
+  concat (blocks p) = words p /\
+  Forall (fun b => length b = 16%nat) (blocks p) /\
+  length (blocks p) = k /\
+  flat_map word_bytes (concat (blocks p)) = p.
+Proof.
+  intros Hl Hb. destruct (words_complete (16 * k) p ltac:(lia) Hb) as [E L].
+  unfold blocks. repeat split.
+  - apply chunks_concat; lia.
+  - apply (chunks_full 16 ltac:(lia) _ k); lia.
+  - apply (chunks_count 16 ltac:(lia) _ k); lia.
+  - rewrite chunks_concat by lia. exact E.
+Qed.
+
+(* every byte of the message is in the blocks SHA-1 compresses, in order, followed by the
+   padding only *)
+Lemma sha1_blocks_cover m :
+  Forall byte m ->
+  exists k,
+    length (blocks (pad m)) = k /\ length (pad m) = (64 * k)%nat /\
+    Forall (fun b => length b = 16%nat) (blocks (pad m)) /\
+    flat_map word_bytes (concat (blocks (pad m)))
+      = m ++ 128 :: zeros (pad_zeros (N.of_nat (length m)))
+            ++ be_bytes 8 (bitlen64 (N.of_nat (length m))).
+Proof.
+  intros Hm. destruct (pad_length_blocks m) as [k Hk]. exists k.
+  destruct (blocks_complete (pad m) k Hk (pad_byte m Hm)) as (_ & Hf & Hc & Hw).
+  repeat split; assumption.
+Qed.
+
+(* at least one block: the digest is never the bare initial value *)
+Lemma sha1_at_least_one_block m : blocks (pad m) <> [].
+Proof.
+  destruct (pad_length_blocks m) as [k Hk]. intros E.
+  assert (Hp : (0 < length (pad m))%nat).
+  { unfold pad. rewrite app_length. cbn [app length]. lia. }
+  assert (Hw : words (pad m) <> []).
+  { destruct (pad m) as [|b0 [|b1 [|b2 [|b3 r]]]] eqn:P; cbn [length] in *; try lia.
+    cbn [words]. discriminate. }
+  unfold blocks in E. destruct (words (pad m)) as [|w ws]; [contradiction|].
+  cbn in E. discriminate.
+Qed.
